@@ -57,11 +57,14 @@ def make_initial(init):
             buf = io.BytesIO()
             doc.save(buf)
             buf.seek(0)
-            t = Document(buf).body.get_table(0)
+            doc2 = Document(buf)
+            t = doc2.body.get_table(0)
+            t._vf_doc = doc2  # keep the owning document for save/reload checks
         return t, TL.recipe_to_grid(init["recipe"])
     if kind == "ods":
         doc = Document(os.path.join(SAMPLES, init["file"]))
         t = doc.body.get_tables()[init["index"]]
+        t._vf_doc = doc
         exp = tabxml.expand(tabxml.parse(t.serialize(with_ns=True)))
         if exp is None:
             raise ValueError("sample table too big")
@@ -253,6 +256,9 @@ def run_case(case, on_step, gen=None):
                 TL.apply_model(g, op, observed)
         except TL.ModelError as me:
             expected = me.exc_type
+        except TL.ModelLaw as ml:
+            if exc is None:
+                return case, [(f"law:{op['op']}", {"law": ml.args[0], "before": ml.args[1], "after": ml.args[2], "step": i, "op": op, "pre": info["pre"]})]
         except KeyError:
             # the model could not be advanced because the real call failed before the
             # observation was taken (rowroute / live_repeated)
@@ -272,3 +278,145 @@ def run_case(case, on_step, gen=None):
                     d.setdefault("pre", info["pre"])
             return case, v
     return case, None
+
+
+# --------------------------------------------------------------------------- C02: live vs fresh vs XML
+
+
+def _expected_map(repeats):
+    out, pos = [], -1
+    for r in repeats:
+        pos += r
+        out.append(pos)
+    return out
+
+
+def _node(el):
+    return el._Element__element
+
+
+def check_coherence(t, rng, doc=None):
+    """L (live answers) vs F (fresh parse of the serialisation) vs X (independent expansion),
+    plus the cache-map / cached-wrapper invariants.  -> [(mechanism, detail)]"""
+    out = []
+    try:
+        xml = t.serialize(with_ns=True)
+        xel = tabxml.parse(xml)
+        exp = tabxml.expand(xel)
+        if exp is None:
+            return out
+        XW, Xrows = exp
+        X = {"size": (XW, len(Xrows)), "values": tabxml.padded(XW, Xrows)}
+        L = TL.observe_basic(t)
+        f = TL.fresh(t)
+        F = TL.observe_basic(f)
+        # rows wider than the declared columns make "padded" ill-defined: C07 judges those
+        for name, A, B in (("L!=F", L, F), ("F!=X", F, X), ("L!=X", L, X)):
+            if tuple(A["size"]) != tuple(B["size"]):
+                out.append((f"coherence:size:{name}", {"a": A["size"], "b": B["size"]}))
+                break
+            if not TL.matrix_equal(A["values"], B["values"]):
+                # X pads to W; odfdo answers rows wider than W unpadded - compare modulo that
+                out.append((f"coherence:values:{name}", {"a": A["values"], "b": B["values"]}))
+                break
+        if out:
+            return out
+        W, H = X["size"]
+        # point reads through the (possibly warm) caches
+        coords = [(rng.randint(0, W), rng.randint(0, H)) for _ in range(5)]
+        for x, y in coords:
+            lv, fv = t.get_value((x, y)), f.get_value((x, y))
+            xv = Xrows[y][x] if y < H and x < len(Xrows[y]) else None
+            if not (TL.values_equal(lv, fv) and TL.values_equal(fv, xv)):
+                out.append(("coherence:get_value", {"coord": [x, y], "live": lv, "fresh": fv, "xml": xv}))
+            lc = t.get_cell((x, y)).value
+            if not TL.values_equal(lc, xv):
+                out.append(("coherence:get_cell", {"coord": [x, y], "live": lc, "xml": xv}))
+        for y in ([rng.randrange(H) for _ in range(3)] if H else []):
+            lr = TL.strip_none(t.get_row(y).get_values())
+            if not TL.list_equal(lr, TL.strip_none(Xrows[y])):
+                out.append(("coherence:get_row", {"y": y, "live": lr, "xml": Xrows[y]}))
+            lw, fw = t.get_row(y).width, f.get_row(y).width
+            if lw != fw or lw != len(Xrows[y]):
+                out.append(("coherence:row-width", {"y": y, "live": lw, "fresh": fw, "xml": len(Xrows[y])}))
+        for x in ([rng.randrange(W) for _ in range(2)] if W else []):
+            lc = t.get_column_values(x)
+            xc = [r[x] if x < len(r) else None for r in Xrows]
+            if not TL.list_equal(lc, xc):
+                out.append(("coherence:get_column_values", {"x": x, "live": lc, "xml": xc}))
+            try:
+                col = t.get_column(x)
+                if col.x != x:
+                    out.append(("coherence:get_column.x", {"x": x, "got": col.x}))
+            except Exception as e:
+                out.append(("coherence:get_column-raised", {"x": x, "exc": repr(e)}))
+        # state invariants: maps == maps recomputed from the XML, cached wrappers not orphaned
+        live_el = _node(t)
+        rows_el = tabxml.row_elements(live_el)
+        cols_el = tabxml.column_elements(live_el)
+        exp_t = _expected_map([tabxml._rep(r, tabxml.REP_ROWS) for r in rows_el])
+        exp_c = _expected_map([tabxml._rep(c, tabxml.REP_COLS) for c in cols_el])
+        if list(t._tmap) != exp_t:
+            out.append(("map:_tmap-stale", {"map": list(t._tmap), "xml": exp_t}))
+        if list(t._cmap) != exp_c:
+            out.append(("map:_cmap-stale", {"map": list(t._cmap), "xml": exp_c}))
+        for idx, w in list(t._indexes.get("_tmap", {}).items()):
+            if w is None:
+                continue
+            if idx >= len(rows_el) or _node(w) is not rows_el[idx]:
+                out.append(("cache:row-wrapper-orphan", {"idx": idx, "nrows": len(rows_el)}))
+                continue
+            exp_r = _expected_map([tabxml._rep(c, tabxml.REP_COLS) for c in tabxml.cell_elements(rows_el[idx])])
+            if list(w._rmap) != exp_r:
+                out.append(("cache:row-wrapper-rmap-stale", {"idx": idx, "map": list(w._rmap), "xml": exp_r}))
+            cells_el = tabxml.cell_elements(rows_el[idx])
+            for cidx, cw in list(w._indexes.get("_rmap", {}).items()):
+                if cw is None:
+                    continue
+                if cidx >= len(cells_el) or _node(cw) is not cells_el[cidx]:
+                    out.append(("cache:cell-wrapper-orphan", {"row": idx, "idx": cidx}))
+        for idx, w in list(t._indexes.get("_cmap", {}).items()):
+            if w is None:
+                continue
+            if idx >= len(cols_el) or _node(w) is not cols_el[idx]:
+                out.append(("cache:column-wrapper-orphan", {"idx": idx}))
+        # a document saved right now reloads to the table the caller is looking at
+        if doc is not None:
+            import io
+
+            from odfdo import Document
+
+            buf = io.BytesIO()
+            doc.save(buf)
+            buf.seek(0)
+            t2 = Document(buf).body.get_table(0)
+            R = TL.observe_basic(t2)
+            if tuple(R["size"]) != tuple(L["size"]) or not TL.matrix_equal(R["values"], L["values"]):
+                out.append(("coherence:saved-document-differs", {"live": L, "reloaded": R}))
+    except Exception as e:
+        import traceback
+
+        out.append((f"coherence-raised:{type(e).__name__}", {"exc": repr(e), "tb": traceback.format_exc()[-1500:]}))
+    return out
+
+
+# --------------------------------------------------------------------------- C07: structure
+
+
+def check_structure(t):
+    out = []
+    try:
+        xel = tabxml.parse(t.serialize(with_ns=True))
+        facts, (W, H) = tabxml.structure_facts(xel)
+        for rule, ok, detail in facts:
+            if not ok:
+                out.append((f"structure:{rule}", {"detail": detail}))
+        if t.height != H:
+            out.append(("structure:height!=sum-of-row-repeats", {"height": t.height, "xml": H}))
+        if t.width != W:
+            out.append(("structure:width!=sum-of-column-repeats", {"width": t.width, "xml": W}))
+    except Exception as e:
+        import traceback
+
+        out.append((f"structure-raised:{type(e).__name__}", {"exc": repr(e), "tb": traceback.format_exc()[-1200:]}))
+    return out
